@@ -1,7 +1,9 @@
 mod common;
 mod fixture;
+mod queries;
 mod sched;
 mod c01;
+mod c05;
 mod c06;
 mod c12;
 mod c13;
@@ -49,6 +51,8 @@ fn main() {
             0
         }
         "c01" => c01::run(opts),
+        "c05" => c05::run(opts),
+        "c05-worker" => c05::worker(&args[1..]),
         "c06" => c06::run(opts),
         "c12" => c12::run(opts),
         "c13" => c13::run(opts),
